@@ -14,6 +14,7 @@ func init() {
 		Explain: "Decides keyring persistence as a sibling rule over the three key-modifying query handlers: from the keyring mutator's nil result, Result=true is unreachable once the calls of the keyring-file writer and the edges establishing 'no keyring file configured' are cut (with a file configured, success implies a write); Result=true is stored only behind the mutator's and the writer's nil results; every failure edge (undecodable request, encryption disabled, mutator error) reaches the reply without a write and without touching the keyring; the file writer is called from nowhere else; writer and loader agree on the codec (JSON array of base64.StdEncoding strings, in keyring order, element 0 loaded as primary — memberlist keeps the primary key at index 0).",
 		Run:     runC22,
 		Mutants: []Mutant{
+			{Name: "loader-stricter-than-writer", File: "cmd/serf/command/agent/agent.go", Func: "func (a *Agent) loadKeyringFile(", Old: "\t\tkeysDecoded[i] = keyBytes\n", New: "\t\tif len(keyBytes)%16 != 0 {\n\t\t\treturn fmt.Errorf(\"bad key size\")\n\t\t}\n\t\tkeysDecoded[i] = keyBytes\n", Expect: "R2|loader:rejects-only-for-shared-reasons"},
 			{Name: "rename-locals", Equivalent: true, Regexp: true, File: "serf/internal_query.go", Func: "func (s *serfQueries) handleInstallKey(", Old: `\b(req|response|keyring)\b`, New: "${1}Renamed"},
 			{Name: "use-key-not-persisted", File: "serf/internal_query.go", Func: "func (s *serfQueries) handleUseKey(", Old: "\tif err := s.serf.writeKeyringFile(); err != nil {\n\t\tresponse.Message = err.Error()\n\t\ts.logger.Printf(\"[ERR] serf: Failed to write keyring file: %s\", err)\n\t\tgoto SEND\n\t}\n", New: "", Expect: "R1"},
 			{Name: "remove-key-write-error-ignored", File: "serf/internal_query.go", Func: "func (s *serfQueries) handleRemoveKey(", Old: "\tif err := s.serf.writeKeyringFile(); err != nil {", New: "\tif err := s.serf.writeKeyringFile(); err != nil && req.Key == nil {", Expect: "R1"},
@@ -189,6 +190,43 @@ func runC22(c *an.Ctx) {
 			}
 		}
 		c.Add(okT, "R2", "loader:string-array", lf, "the loader decodes into a []string, the type the writer encodes", "argument type")
+		// the loader refuses a file only for the reasons the writer side shares: unreadable/undecodable file,
+		// an entry that is not base64, an empty list, or a key set memberlist's own NewKeyring refuses (the same
+		// validation AddKey applies when the handlers accept a key). Any further rejection makes the node refuse
+		// a file it wrote itself.
+		allowed := []string{"len($0.agentConf.EncryptKey)", "os.Stat(", "os.ReadFile(", "json.Unmarshal(", "base64.(*Encoding).DecodeString(g:StdEncoding,", "memberlist.NewKeyring(", "(phi:rangeindex@", "phi:rangeindex@", "len(make:slice(len(", "len(local:[]string)"}
+		nRej := 0
+		for _, r := range an.Returns(lf) {
+			if r.Block().Comment == "recover" || an.IsNilConst(an.ResultValues(r)[0]) {
+				continue
+			}
+			nRej++
+			extra := ""
+			facts := necessaryFacts(lf, r)
+			// plus the conditions that branch straight into this return (a disjunction has no single necessary edge)
+			for e, fs := range an.EdgeFacts(lf) {
+				b := e.To()
+				for len(b.Succs) == 1 && b != r.Block() {
+					b = b.Succs[0]
+				}
+				if b == r.Block() {
+					facts = append(facts, fs...)
+				}
+			}
+			for _, f := range facts {
+				ok := false
+				for _, a := range allowed {
+					if strings.HasPrefix(f.L, a) || strings.HasPrefix(f.R, a) {
+						ok = true
+					}
+				}
+				if !ok && !strings.Contains(extra, f.String()) {
+					extra += f.String() + "; "
+				}
+			}
+			c.Add(extra == "", "R2", "loader:rejects-only-for-shared-reasons", r, "the loader refuses the file only when it is unreadable, not JSON, not base64, empty, or refused by memberlist's own key validation (other conditions: "+extra+")", "necessary-edge enumeration for every error return")
+		}
+		c.Floor("R2", "error returns in the loader", nRej, 5)
 	}
 	c.Assumption("memberlist.Keyring keeps the primary key at index 0 of GetKeys() (UseKey moves it there) — trusted base")
 }
